@@ -92,6 +92,36 @@ func (es *eventStream) Unsubscribe(ctx vivid.EventStreamContext, event any) {
 	ctx.Logger().Debug("event unsubscribed", log.String("subscriber_path", subscriberPath), log.String("event_type", eventType.String()))
 }
 
+// unsubscribeRef 移除以 ref 这一引用实例登记的全部订阅，用于清理创建失败（OnPrelaunch 之后被拒绝）的 Actor 在 OnPrelaunch 中留下的订阅。
+// 订阅表按路径索引：此处不能使用 UnsubscribeAll，否则会连同路径相同的、存活的同名 Actor 的订阅一并移除；
+// 而若不清理，事件会按路径投递给从未订阅该事件的同名 Actor。
+func (es *eventStream) unsubscribeRef(ref vivid.ActorRef) {
+	es.mu.Lock()
+	defer es.mu.Unlock()
+
+	subscriberPath := ref.GetPath()
+	for eventType := range es.subscriberTypes[subscriberPath] {
+		if es.subscribers[eventType][subscriberPath] != ref {
+			continue
+		}
+		delete(es.subscribers[eventType], subscriberPath)
+		if len(es.subscribers[eventType]) == 0 {
+			delete(es.subscribers, eventType)
+		}
+		delete(es.subscriberTypes[subscriberPath], eventType)
+	}
+	if len(es.subscriberTypes[subscriberPath]) == 0 {
+		delete(es.subscriberTypes, subscriberPath)
+	}
+}
+
+// discardSubscriptionsOf 清理创建失败的 Actor（其引用为 ref）在 OnPrelaunch 中留下的订阅。
+func (s *System) discardSubscriptionsOf(ref *Ref) {
+	if es, ok := s.eventStream.(*eventStream); ok {
+		es.unsubscribeRef(ref)
+	}
+}
+
 func (es *eventStream) UnsubscribeAll(ctx vivid.EventStreamContext) {
 	es.mu.Lock()
 	defer es.mu.Unlock()
